@@ -181,13 +181,15 @@ def run_case(seed, i, tier):
     cont = rng.choice(("plain", "plain", "plain", "gz", "xz", "lz4", "tar", "bz2"))
     if cont == "bz2" and len(data) > 3_000_000:
         cont = "gz"
+    rts = [e["rt"] // 1_000_000 for e in ents] or [1_600_000_000]
+    mt_file, mt_in = world.mtime_around(rng, min(rts), max(rts)), world.mtime_around(rng, min(rts), max(rts))
     if cont == "tar":
-        stored = world.to_tar([(world.member_path(rng, "j.journal"), data, 1600000000)], rng.choice(("ustar", "gnu", "pax")))
+        stored = world.to_tar([(world.member_path(rng, "j.journal"), data, mt_in)], rng.choice(("ustar", "gnu", "pax")))
         path = "jr.tar"
     elif cont == "plain":
         stored, path = data, "j.journal"
     else:
-        stored, _ = world.random_container(rng, cont, data, 1600000000, "j.journal")
+        stored, _ = world.random_container(rng, cont, data, mt_in, "j.journal")
         path = "j.journal" + world.SUFFIX[cont]
     rendering = rng.choice(RENDERINGS + ("export", "export", "cat"))
     tzo = rng.choice(("+00:00", "+05:30", "-08:00", "+14:00", "-11:30"))
@@ -219,7 +221,7 @@ def run_case(seed, i, tier):
                 opts += ["-a", c03.fmt_bound(rng, a)]
             if b is not None:
                 opts += ["-b", c03.fmt_bound(rng, b)]
-    scn = core.Scenario([core.FileSpec(path, stored, 1600000000)], opts + [path], None, rng.choice(("UTC", "XYZ5")))
+    scn = core.Scenario([core.FileSpec(path, stored, mt_file)], opts + [path], None, rng.choice(("UTC", "XYZ5")))
     prng = core.rng_for(seed, PROP, i, "plan")
     plan = core.random_plan(prng, 1, budget=6_000_000)
     plan.hashseed = rng.getrandbits(32)
@@ -250,7 +252,7 @@ def run_case(seed, i, tier):
         if d:
             vs.append(("entries_differ", d))
     for (cls, detail) in vs:
-        rp = {"scenario": scn.to_json() if len(stored) < 3_000_000 else None, "fixture": name, "container": cont, "opts": opts,
+        rp = {"scenario": scn.to_json() if len(stored) < 3_000_000 else None, "fixture": name, "container": cont, "opts": opts, "mtime": mt_file,
               "gen_plain_b64": __import__("base64").b64encode(data).decode() if name == "gen" else None,
               "path": path, "plan": plan.as_replay(tr).to_json(), "class": cls, "rendering": rendering, "idxs": [idxs[0], idxs[-1]] if idxs else [],
               "n_idx": len(idxs), "tz": scn.tz}
@@ -272,7 +274,7 @@ def classes_of(rp):
         data = fixtures.load(rp["fixture"])
         if rp["container"] != "plain":
             raise RuntimeError("replay of a large compressed journal needs the inlined scenario")
-        scn = core.Scenario([core.FileSpec(rp["path"], data, 1600000000)], rp["opts"] + [rp["path"]], None, rp.get("tz", "UTC"))
+        scn = core.Scenario([core.FileSpec(rp["path"], data, rp.get("mtime", 1600000000))], rp["opts"] + [rp["path"]], None, rp.get("tz", "UTC"))
     plan = core.Plan.from_json(rp["plan"])
     res = core.execute(scn, plan)
     cl = set(c for (c, _) in mergecheck.evaluate(res, None, check_protocol=False))
